@@ -23,12 +23,13 @@ using namespace msggen;
 
 static bool caseBad;
 static std::string caseDesc;
+static const std::string * caseScript = NULL;   // the generator's operation script, when it is being recorded (first cases of a run, i.e. always in a one-case replay)
 
 static void Fail(const std::string & key, const std::string & detail)
 {
    if (caseBad) return;   // one violation per case
    caseBad = true;
-   vh::viol(key, detail + " | message: " + caseDesc);
+   vh::viol(key, detail + " | message: " + caseDesc + ((caseScript && !caseScript->empty()) ? " | script: " + *caseScript : std::string()));
 }
 static void HarnessAbort(const std::string & why) { fprintf(stderr, "HARNESS-ABORT: %s\n", why.c_str()); fflush(stderr); abort(); }
 
@@ -53,7 +54,7 @@ static MessageRef Strip(const Message & m)
    for (MessageFieldNameIterator it = m.GetFieldNameIterator(); it.HasData(); it++) {
       const String & fn = it.GetFieldName(); uint32 t = 0, n = 0; if (m.GetInfo(fn, &t, &n).IsError()) HarnessAbort("Strip: GetInfo");
       if (IsNonFlat(t)) continue;
-      if (t == B_MESSAGE_TYPE) { for (uint32 i = 0; i < n; i++) { ConstMessageRef s; if (m.FindMessage(fn, i, s).IsError() || s() == NULL) HarnessAbort("Strip: FindMessage"); if (r()->AddMessage(fn, Strip(*s())).IsError()) HarnessAbort("Strip: AddMessage"); } }
+      if (t == B_MESSAGE_TYPE && n > 0) { for (uint32 i = 0; i < n; i++) { ConstMessageRef s; if (m.FindMessage(fn, i, s).IsError() || s() == NULL) HarnessAbort("Strip: FindMessage"); if (r()->AddMessage(fn, Strip(*s())).IsError()) HarnessAbort("Strip: AddMessage"); } }
       else if (m.CopyName(fn, *r()).IsError()) HarnessAbort("Strip: CopyName");
    }
    return r;
@@ -222,7 +223,7 @@ static void CheckRoundTrip(const Message & M, const Message & prev, uint64_t sal
    MessageRef stripped; const Message * ref = &M;
    if (nonflat) { stripped = Strip(M); ref = stripped(); vh::stat("equality_against_stripped_rebuild"); }
    // 3, 4, 5
-   if (!caseBad) { vh::note("compare fresh: " + caseDesc); CheckParsed(M, *ref, nan, nonflat, m2, buf, n, "fresh"); }
+   if (!caseBad) { vh::note("compare fresh: " + caseDesc); const long z0 = ZeroItemFieldsCompared(); CheckParsed(M, *ref, nan, nonflat, m2, buf, n, "fresh"); if (ZeroItemFieldsCompared() > z0) vh::stat("observed_msgs_with_zero_item_field_left_by_shared_array"); }
    if (!caseBad) CheckTypeFilter(m2, "parsed");
    if (!caseBad) {
       // panel: same answers for the original and for the parsed Message
@@ -382,7 +383,7 @@ static void RunCase(long k, uint64_t cs, bool product)
    GenOptions o = GenOptions::Full(); o.sizeClass = (int)vh::optl("size", SIZE_NORMAL);
    GenOptions small = GenOptions::Small();
    MessageRef prev = GenMessage(g, g.R(4) ? small : o);    // previous content of used targets, panel member: small (3 of 4) or full-size
-   GenTrace tr; tr.wantScript = vh::want_sample();
+   GenTrace tr; tr.wantScript = vh::want_sample(); caseScript = &tr.script;
    MessageRef mr, second, keepSource;
    int route = RT_PLAIN;
    if (product) {
@@ -479,6 +480,7 @@ static void RunCase(long k, uint64_t cs, bool product)
       if (!caseBad && second()) { caseDesc = std::string(kRouteName[route]) + " (second Message): " + DescribeMessage(*second()); CheckRoundTrip(*second(), *prev(), g.next(), NULL, NULL); vh::stat("second_messages_checked"); }
       if ((k % 40) == 0) { vh::stat("tostring_calls"); const String ts = M.ToString(); if (ts.Length() == 0) Fail("tostring|empty", "ToString() of a Message is empty"); }   // Print() walks every representation state too (memory safety only)
    }
+   caseScript = NULL;
    vh::distinct(dig ? dig : cs, size > 12);   // non-trivial: at least one field reaches the wire
    vh::statmax("max_flattened_size", size);
    if (size > 12) vh::stat("msgs_with_wire_fields");
@@ -579,6 +581,11 @@ static void Regress()
    { // F55: Queue<bool>::Normalize(), rotate branch, loaded never-written spare slots (UBSan decides: invalid bool load at Queue.h)
      Message m(1); for (int i = 0; i < 5; i++) MUST(m.AddBool("b", true)); MUST(m.PrependBool("b", false)); uint32 cnt = 0; const bool * a = (const bool *)m.GetPointerToNormalizedFieldData("b", &cnt);
      bool ok = a != NULL && cnt == 6 && a[0] == false; for (int i = 1; ok && i < 6; i++) if (a[i] != true) ok = false; Expect(ok, "F55-normalize-bool", "GetPointerToNormalizedFieldData on 5 added + 1 prepended bools must point to F,T,T,T,T,T"); Reg("F55 normalized bool field", m); }
+   { // a field left without items by the other owner of its shared array (ShareName into the same Message / lightweight copy): constructible, must make the trip
+     Message m(1); MUST(m.AddInt32("a", 1)); MUST(m.AddInt32("a", 2)); MUST(m.ShareName("a", m, "b")); MUST(m.RemoveData("a", 0)); MUST(m.RemoveData("a", 0)); MUST(m.AddInt8("c", 3));
+     uint32 t = 0, n = 9; Expect(!m.HasName("a") && m.GetInfo("b", &t, &n).IsOK() && n == 0, "zero-item-field-construction", "ShareName + RemoveData through the other name: expected the sharing field to stay, empty (if this fails the library now cleans it up: adjust the witness)"); Reg("zero-item int32 field", m);
+     Message s(2), l; MUST(s.AddString("s", "x")); MUST(s.AddString("s", "y")); MUST(s.AddMessage("m", GetMessageFromPool(1))); MUST(s.AddMessage("m", GetMessageFromPool(2))); l.BecomeLightweightCopyOf(s); for (int i = 0; i < 2; i++) { MUST(l.RemoveData("s", 0)); MUST(l.RemoveData("m", 0)); } MUST(s.AddPointer("p", &s)); Reg("zero-item string and Message fields (source of a lightweight copy)", s);
+     MUST(s.AddString("s", "again")); Reg("zero-item field grown again", s); }
    { // SwapName / SwapContents / by-value FindMessage
      Message a(1), b(2); MUST(a.AddInt32("both", 1)); MUST(a.AddString("onlyA", "x")); MUST(b.AddString("both", "s")); MUST(b.AddString("both", "t")); MUST(b.AddDouble("onlyB", 2.0));
      MUST(a.SwapName("both", b)); MUST(a.SwapName("onlyA", b)); MUST(b.SwapName("onlyB", a)); Expect(a.SwapName("nowhere", b).IsError(), "swapname-status", "SwapName of a field in neither Message must fail");
